@@ -283,7 +283,7 @@ class ProductState:
                 num_elements = ps.size
                 sqrt = int(jnp.ceil(jnp.sqrt(num_elements)))
                 self.state = ps.reshape((sqrt, sqrt))
-                self.state /= jnp.linalg.norm(self.state)
+                self.state /= jnp.trace(self.state)
             else:
                 self.state = jnp.array([[1]])
 
@@ -736,12 +736,12 @@ class ProductState:
                     "The state is entirely composed of zeros,"
                     "is |0⟩ attempted to be annihilated?"
                 )
-            if operation.renormalize:
-                ps = ps / jnp.linalg.norm(ps)
-
             # Reshape back into 2d Matrix
             dims = jnp.prod(jnp.array([so.dimensions for so in self.state_objs]))
-            self.state = ps.reshape((dims, dims))
+            ps = ps.reshape((dims, dims))
+            if operation.renormalize:
+                ps = ps / jnp.trace(ps)
+            self.state = ps
             C = Config()
             if C.contractions:
                 self.contract()
